@@ -16,6 +16,17 @@ with status codes x (fixed) f (free) c (constr), e.g.  S=xx,ff,cf  and modes
            within 2e-6 m, while a wrong sign or factor leaves 0.1-1 mm
     far    (vector / xyz only: linear model) displaced by 0.17-0.34 m
     omit   (vector / xyz only) coordinates of the non-fixed points omitted
+    tolin  (vector / xyz only) every point whose n, e, u can all move is displaced in
+           geocentric X, Y, Z by  m_P * (sign pattern SG)  metres, m = 0.80, -0.15, 0.75,
+           0.30 for A..D: every component of every absolute term (point against a
+           fixed point or an observed xyz: 0.80, 0.15, 0.75; between two displaced
+           points: 0.95, 0.90, 0.05 ...) stays INSIDE the rejection tolerance tol-abs
+           (Model::tol_abs = 1000 mm, per component), while the lengths 1.3 - 1.65 m
+           are beyond it: nothing may be rejected, the linear model reproduces the truth
+    tolout the same, but component OC of the first displaced point is 1.05 m: every
+           vector / xyz with an absolute term beyond tol-abs in that component - and no
+           other - is rejected (documented for tol-abs in doc/gama-local-adj.texi:
+           "Observations with outlying absolute terms are always excluded")
     noisy  (vector / xyz only, determined networks) approximate = true,
            observations perturbed by a fixed +-mm pattern; reference =
            own weighted least squares
@@ -37,6 +48,11 @@ TOL_RES = 1.1e-5     # m   residuals are printed with 5 decimals
 PERT = {"A": (0.00052, -0.00033, 0.00043), "B": (-0.00041, 0.00057, -0.00029),
         "C": (0.00031, 0.00047, -0.00055), "D": (-0.00053, -0.00036, 0.00044)}
 FAR_FACTOR = 600.0
+# rejection tolerance of the absolute terms: Model::tol_abs = 1e3 (g3_model.cpp) in the unit of the right-hand
+# sides, mm; the generated input has no <tol-abs>.  Tested per component for <vector> and <xyz>.
+TOL_ABS = 1.0                                             # m
+TOL_IN = {"A": 0.80, "B": -0.15, "C": 0.75, "D": 0.30}    # m per component, times the sign pattern: inside
+TOL_OUT = 1.05                                            # m: just outside, one component of one point
 MAX_PERT = max(abs(v) for p in PERT.values() for v in p)
 NOISE = (0.0031, -0.0024, 0.0017, -0.0029, 0.0022, 0.0035, -0.0019, 0.0027, -0.0033)
 
@@ -63,6 +79,10 @@ def case_str(sp):
         s += ";LY=%d" % sp["lay"]
     if sp.get("dh") and set(sp["dh"]) != {"-"}:
         s += ";DH=" + sp["dh"]
+    if sp.get("sg"):
+        s += ";SG=" + sp["sg"]
+    if sp.get("oc") is not None:
+        s += ";OC=%d" % sp["oc"]
     return s
 
 
@@ -84,6 +104,10 @@ def parse_case(s):
         sp["lay"] = int(d["LY"])
     if "DH" in d:
         sp["dh"] = d["DH"]
+    if "SG" in d:
+        sp["sg"] = d["SG"]
+    if "OC" in d:
+        sp["oc"] = int(d["OC"])
     return sp
 
 
@@ -274,9 +298,21 @@ def approx_coords(sp):
     out = {}
     mode = sp["mode"]
     cols = set(classify(sp)["cols"])
+    first_out = mode == "tolout"
     for pid in ids:
         if mode in ("true", "noisy") or st[pid] == "xx":
             out[pid] = tuple(str(c) for c in T[pid])
+        elif mode in ("tolin", "tolout"):
+            # geocentric displacement of the points that can move freely in space
+            if all((pid, k) in cols for k in range(3)):
+                sg = [1.0 if c == "+" else -1.0 for c in sp.get("sg", "+++")]
+                d = [TOL_IN[pid] * sg[i] for i in range(3)]
+                if first_out:
+                    d[sp.get("oc", 0)] = TOL_OUT * sg[sp.get("oc", 0)] * (1.0 if TOL_IN[pid] > 0 else -1.0)
+                    first_out = False
+                out[pid] = tuple("%.10f" % (X[pid][i] + d[i]) for i in range(3))
+            else:
+                out[pid] = tuple(str(c) for c in T[pid])
         elif mode == "omit":
             out[pid] = None if (st[pid][0] != "x" and st[pid][1] != "x") else tuple(str(c) for c in T[pid])
         else:
@@ -304,6 +340,24 @@ def observed_strings(sp, recs):
                 j += 1
             v = tuple(w)
         out.append(v)
+    return out
+
+
+def predicted_rejections(recs, vals, approx):
+    """reference side of the tol-abs test: the vector / xyz records with a component of the absolute term
+    (observed - computed from the approximate coordinates) beyond TOL_ABS; None if a component lies within
+    1e-6 m of the tolerance (undecidable: not generated)"""
+    if any(v is None for v in approx.values()):
+        return []
+    Xa = {pid: tuple(float(c) for c in v) for pid, v in approx.items()}
+    out = []
+    for (o, _), v in zip(recs, vals):
+        if o[0] in LINEAR:
+            m = [float(s) - f for s, f in zip(v, R.obs_value(o, Xa, G.GEOID))]
+            if any(abs(abs(c) - TOL_ABS) < 1e-6 for c in m):
+                return None
+            if any(abs(c) > TOL_ABS for c in m):
+                out.append((o[0], tuple(o[1:])))
     return out
 
 
@@ -579,6 +633,25 @@ def evaluate(sp):
 
     xml, recs, vals, rp = build_input(sp)
     approx = approx_coords(sp)
+    # tol-abs: which records must be rejected (modes tolin: none, by construction; tolout: some)
+    pred = predicted_rejections(recs, vals, approx) if mode in ("far", "tolin", "tolout") else []
+    if pred is None or (pred and len(pred) == len(recs)):
+        out["outcomes"].append("excluded:%s" % ("absolute-term-on-the-tolerance" if pred is None else "every-observation-beyond-tol-abs"))
+        return out
+    if pred:
+        # what is left must still have a parameter (gama-g3 stops with "No parameters and/or observations" otherwise)
+        stt = dict(zip(G.IDS[:sp["npts"]], sp["status"]))
+        kept = [o for o, _ in recs if (o[0], tuple(o[1:])) not in pred]
+        if not any(stt[p_] != "xx" and (R.USES_NEU[o[0]] or stt[p_][1] != "x") for o in kept for p_ in R.obs_points(o)):
+            out["outcomes"].append("excluded:no-parameter-left-after-rejection")
+            return out
+    if mode in ("tolin", "tolout"):
+        big = sum(1 for (o, _), v in zip(recs, vals) if o[0] in LINEAR and (o[0], tuple(o[1:])) not in pred
+                  and math.sqrt(sum((float(s) - f) ** 2 for s, f in zip(v, R.obs_value(o, {p_: tuple(float(c) for c in a_) for p_, a_ in approx.items()}, G.GEOID)))) > TOL_ABS)
+        if big:
+            Cn("records_kept_with_absolute_term_longer_than_tol_abs", big)
+        if pred:
+            Cn("records_to_be_rejected", len(pred))
     T, X, fr, cand = geo(sp)
     ids = G.IDS[:sp["npts"]]
     # tolerance of "adjusted = generating": 2e-6 m, plus - from displaced approximate
@@ -635,6 +708,22 @@ def evaluate(sp):
             out["outcomes"].append("nonfinite%s" % ("-angle-targets-in-line" if in_line else ""))
         else:
             okalgs.append(a)
+    if pred:
+        # the network after the rejection is another network: only the rejection itself is judged
+        drop = sum(R.DIM[t] for t, _ in pred)
+        for a in okalgs:
+            res = results[a][2]
+            if sorted(res["rejected_list"]) != sorted(pred):
+                V("rejection-set", "%s|%s|%s" % (cls, mode, a), "algorithm %s rejects %s; absolute terms beyond tol-abs = %g m in a component: %s"
+                  % (a, sorted(res["rejected_list"]), TOL_ABS, sorted(pred)))
+            elif res["equations"] != cl["neq"] - drop:
+                V("rejection-equations", "%s|%s|%s" % (cls, mode, a), "algorithm %s: equations %s, reference %d - %d rejected" % (a, res["equations"], cl["neq"], drop))
+        if okalgs:
+            out["outcomes"].append("rejected-by-tol-abs:%d-of-%d-records:%s" % (len(pred), len(recs), mode))
+            out["sample"] = "%s -> %d of %d records beyond tol-abs in one component, rejected" % (cs, len(pred), len(recs))
+        for clause, extra, detail in raw:
+            out["viol"].append(("C19|%s|T=%s|br=n/a|%s|%s" % (clause, tsig, cl["feat"], extra), "%s :: %s" % (cs, detail)))
+        return out
     npar = len(cl["cols"])
     red = cl["neq"] - npar + cl["defect"]
     pe0 = None
@@ -708,7 +797,17 @@ def evaluate(sp):
             if worst > tol_xyz:
                 V("adjusted", "%s|%s|%s" % (cls, mode, a), "algorithm %s: %s" % (a, wdesc))
             else:
-                xs = [res["points"][pid].get("d" + "neu"[k], 0.0) for (pid, k) in cl["cols"]]
+                # gama's dn, de, du refer to the local frame at the approximate position, the reference null
+                # space to the frame at the generating one: next to a pole a displacement of a metre turns
+                # north and east by 1e-4 rad - express the corrections in the frame of the reference first
+                fa = G.frames_of({pid: tuple(float(c) for c in approx[pid]) for pid in ids if approx.get(pid)})
+                xs = []
+                for (pid, k) in cl["cols"]:
+                    p_ = res["points"][pid]
+                    v = (0.0, 0.0, 0.0)
+                    for kk in range(3):
+                        v = R.add(v, R.mul(fa[pid][kk], p_.get("d" + "neu"[kk], 0.0)))
+                    xs.append(R.dot(fr[pid][k], v))
                 for b in cl["basis"]:
                     s = sum(b[i] * xs[i] for i in cl["S"])
                     if abs(s) > 5 * TOL_DNEU:
